@@ -1,4 +1,5 @@
 import RepeVerif.Model.Router
+import RepeVerif.Model.RouterStruct
 import RepeVerif.Gen.Router
 import RepeVerif.Driver.Common
 /-! Driver for the `router` correspondence family (C07).
@@ -10,9 +11,12 @@ get I <path>                    -> I none | I handler N mws a,b [ptr H | segs k 
 match I reg|struct <prefix> <path>   (one fresh mount)  -> I 0 | I 1 ptr H | I 1 segs k t…
 tok I <ptr>                     -> I segs k t…          (`json_pointer::parse`)
 twin I <kind> <blocking> <nmw> <bfmt> <body> <j><b><s><r> <ok|err> <code> <order> <voff> <qfmt> <query> <id>
-                                -> I <ok|rej N|fail|-> exec <inline|offreader>
+                                -> I <ok|rej N|fail|-> exec <inline|offreader> links <k>
    (order, view offset, query and id only steer the implementation run: the routes must agree whatever they are)
 ```
+dreset I <lock kind 0..3>       fresh derived struct (`demoSpec`)            (no observation)
+dstruct I <root> <path> <bfmt> <body> <canonical JSON of the decoded body> <jb..> <wholeOk>
+                                -> I none | I ok <json> | I whole | I err N | I fail
 Strings are hex of their UTF-8 bytes ("-" = empty). -/
 namespace Repe.Driver.Router
 open Repe Repe.Driver Repe.Router
@@ -50,11 +54,11 @@ def gateOf (kind : String) : Option (Option Gate) :=
   | "jsonctx" => some (some F.jsonOwned)
   | "typed" => some (some F.typedOwned)
   | "typedctx" => some (some F.typedOwned)
-  | "adapter" => some (some F.typedOwned)
+  | "adapter" => some (some F.adapterGate)
   | "slice" => some (some F.sliceOwned)
   | "sliceref" => some (some F.sliceRefOwned)
   | "registry" => some none
-  | "struct" => some none
+  | "struct" => some (some F.structGate)
   | _ => none
 
 def hintFor (hints : List Char) : Decoder → Bool
@@ -63,7 +67,24 @@ def hintFor (hints : List Char) : Decoder → Bool
   | .typedSlice => hints[2]? = some '1'
   | .typedSliceRef => hints[3]? = some '1'
 
-def step (r : Router.Router) (ws : List String) : Router.Router × String :=
+structure St where
+  r : Router.Router := {}
+  store : Store := []
+
+def nullJson : Bytes := "null".toUTF8.toList
+
+def showDOut (body canon : Bytes) : DOut → String
+  | .value v => "ok " ++ hexOfBytes v
+  | .null => "ok " ++ hexOfBytes nullJson
+  | .whole _ => "whole"
+  | .called p unit =>
+    if unit then "ok " ++ hexOfBytes nullJson
+    else if p = ["echo".toList] then "ok " ++ hexOfBytes (if body.isEmpty then nullJson else canon)
+    else if p = ["ping".toList] then "ok " ++ hexOfBytes "7".toUTF8.toList
+    else "called ?"
+  | .err e => s!"err {e.code}"
+
+def stepR (r : Router.Router) (ws : List String) : Router.Router × String :=
   let F := Gen.routerFacts
   match ws with
   | ["reset", _] => ({}, "")
@@ -110,7 +131,7 @@ def step (r : Router.Router) (ws : List String) : Router.Router × String :=
     match strOfHex p with
     | some p => (r, idx ++ " " ++ showSegs (jsonPointerParse p))
     | none => (r, idx ++ " bad-op")
-  | ["twin", idx, kind, blocking, nmw, bfmt, _body, hints, cres, ccode, _order, _voff, _qfmt, _query, _rid] =>
+  | ["twin", idx, kind, blocking, nmw, bfmt, _body, hints, cres, ccode, _order, _voff, _qfmt, query, _rid] =>
     match gateOf kind with
     | none => (r, idx ++ " bad-op")
     | some g =>
@@ -121,13 +142,42 @@ def step (r : Router.Router) (ws : List String) : Router.Router × String :=
         match g with
         | none => "-"
         | some gate =>
+          -- a struct mount first checks that the path is below its root ("/t" in the harness)
+          if kind = "struct" && (relativePointer "/t".toList ((strOfHex query).getD [])).isNone then "rej 6"
+          -- … and reads (no decoding) when the body is empty
+          else if kind = "struct" && Gen.handlerFacts.structEmptyBodyIsRead && _body = "-" then
+            (if cres = "ok" then "ok" else s!"rej {SErr.execution.code}")
+          else
           match gate.lookup (natOf bfmt) with
           | none => s!"rej {INVALID_BODY}"
           | some d =>
             if !hintFor hints.toList d then "fail"
-            else if cres = "ok" then "ok" else s!"rej {natOf ccode}"
-      (r, s!"{idx} {cls} exec {exec}")
+            else if cres = "ok" then "ok"
+            else if kind = "struct" then s!"rej {SErr.execution.code}" else s!"rej {natOf ccode}"
+      -- how many of the `nmw` links are shown the caller's context (`Next::ctx()`)
+      let links := if Gen.handlerFacts.nextForwardsCtx then natOf nmw else 0
+      (r, s!"{idx} {cls} exec {exec} links {links}")
   | _ => (r, (ws.getD 1 "?") ++ " bad-op")
+
+def step (st : St) (ws : List String) : St × String :=
+  match ws with
+  | ["dreset", _, _lockKind] => ({ st with store := [] }, "")
+  | ["dstruct", idx, root, p, bfmt, body, canon, hints, whole] =>
+    match strOfHex root, strOfHex p, bytesOfHex body, bytesOfHex canon with
+    | some root, some p, some body, some canon =>
+      let n := normStructRoot root
+      if !mountMatches n p then (st, idx ++ " none")
+      else
+        let F := Gen.handlerFacts
+        match structCall Gen.routerFacts.stackSegs F.structGate F.structEmptyBodyIsRead n p (natOf bfmt) body (hintFor hints.toList) with
+        | .notBelowRoot => (st, idx ++ " err 6")
+        | .invalidBody => (st, s!"{idx} err {INVALID_BODY}")
+        | .undecodable => (st, idx ++ " fail")
+        | .handle segs hasBody =>
+          let (o, store') := derivedHandle demoSpec nullJson st.store segs (if hasBody then some canon else none) (whole = "1")
+          ({ st with store := store' }, idx ++ " " ++ showDOut body canon o)
+    | _, _, _, _ => (st, idx ++ " bad-op")
+  | _ => let (r', o) := stepR st.r ws; ({ st with r := r' }, o)
 
 end Repe.Driver.Router
 
